@@ -242,6 +242,41 @@ func runC16(r *rt.Runner) {
 			}
 		}
 	})
+	// (c4b') digits replaced by multi-byte characters whose code points END in the
+	// byte of a hexadecimal digit (U+0141, U+4E30, ...), at byte lengths that are
+	// right for the form: such a character is not a hexadecimal digit
+	r.Case("hex-digit-runes", func(c *rt.C) {
+		rng := c.Rand()
+		const hexd = "0123456789ABCDEF"
+		bases := []rune{0x100, 0x200, 0x300, 0x4E00, 0x2000, 0x1F600, 0x10000}
+		for i := 0; i < 30000; i++ {
+			var body []byte
+			target := []int{4, 5, 6, 4, 8, 12}[rng.IntN(6)]
+			for len(body) < target {
+				h := rune(hexd[rng.IntN(16)])
+				if rng.IntN(4) == 0 {
+					body = append(body, string(bases[rng.IntN(len(bases))]+h)...)
+				} else {
+					body = append(body, byte(h))
+				}
+			}
+			if len(body) != target {
+				continue
+			}
+			pre := "u"
+			if target%4 == 0 && rng.IntN(2) == 0 {
+				pre = "uni"
+			}
+			nm := pre + string(body)
+			switch rng.IntN(4) {
+			case 0:
+				nm = "A_" + nm + "_B"
+			case 1:
+				nm += ".alt"
+			}
+			checkTU(c, nm, rng.IntN(2) == 0)
+		}
+	})
 	// (c4c) the first look-up of a process: fresh child processes whose very first
 	// call is a multi-code entry, a dingbat, a uni name, a composite
 	{
